@@ -50,4 +50,7 @@ def untranslated : List String := []
 /-- names of the translated definitions -/
 def translated : List String := ["SetFeedValue_delta_1(counter,latestHistory)", "SetFeedValue_call_deleteOldestFeedValue_1_arg1(feedName)", "SetFeedValue_call_deleteOldestFeedValue_1_arg2(delta)", "EditFeed_guard_1(msg_Creator,feed_Creator)", "EditFeed_cond_2(msg_LatestHistory)", "EditFeed_cond_3(expectCnt,cnt)", "EditFeed_expectCnt_1(msg_LatestHistory)", "EditFeed_call_deleteOldestFeedValue_1_arg1(feed_FeedName)", "EditFeed_call_deleteOldestFeedValue_1_arg2(cnt,expectCnt)", "EditFeed_feed_LatestHistory_1(msg_LatestHistory)", "EditFeed_cond_4(read_types_Modified_msg_Description)"]
 
+/-- every rejecting guard of the translated functions, in source order -/
+def guards : List String := ["EditFeed: !found", "EditFeed: msg.Creator != feed.Creator", "EditFeed: err := k.sk.UpdateRequestContext( ctx, requestContextID, providers, msg.ResponseThreshold, msg.ServiceFeeCap, msg.Timeout, msg.RepeatedFrequency, -1, creator, ); err != nil", "Keeper.CreateFeed: _, found := k.GetFeed(ctx, msg.FeedName); found", "Keeper.CreateFeed: requestContextID, err := k.sk.CreateRequestContext( ctx, msg.ServiceName, providers, creator, msg.Input, msg.ServiceFeeCap, msg.Timeout, true, msg.RepeatedFrequency, -1, serviceexported.PAUSED, msg.ResponseThreshold, types.ModuleName, ); err != nil", "Keeper.StartFeed: !found", "Keeper.StartFeed: msg.Creator != feed.Creator", "Keeper.StartFeed: !existed", "Keeper.StartFeed: reqCtx.State == serviceexported.RUNNING", "Keeper.StartFeed: err := k.sk.StartRequestContext(ctx, requestContextID, creator); err != nil", "Keeper.PauseFeed: !found", "Keeper.PauseFeed: msg.Creator != feed.Creator", "Keeper.PauseFeed: !existed", "Keeper.PauseFeed: reqCtx.State != serviceexported.RUNNING", "Keeper.PauseFeed: err := k.sk.PauseRequestContext(ctx, requestContextID, creator); err != nil", "msgServer.CreateFeed: err := m.Keeper.CreateFeed(ctx, msg); err != nil", "msgServer.EditFeed: err := m.Keeper.EditFeed(ctx, msg); err != nil", "msgServer.StartFeed: err := m.Keeper.StartFeed(ctx, msg); err != nil", "msgServer.PauseFeed: err := m.Keeper.PauseFeed(ctx, msg); err != nil"]
+
 end Irismod.Gen.PureOracle
